@@ -322,37 +322,37 @@ func init() {
 				}
 				r.waitKilled()
 			})
-			x.Data["runner"] = r
+			x.Put("runner", r)
 			cfg := c.build(r, 10*time.Second)
 			cl := plugin.NewClient(cfg)
-			x.Data["client"] = cl
-			x.Data["cfgobj"] = cfg
+			x.Put("client", cl)
+			x.Put("cfgobj", cfg)
 			t0 := x.Now()
 			func() {
 				defer func() {
 					if rec := recover(); rec != nil {
-						x.Data["panic"] = fmt.Sprint(rec)
+						x.Put("panic", fmt.Sprint(rec))
 					}
 				}()
 				addr, err := cl.Start()
-				x.Data["started"] = true
-				x.Data["addr"] = addr
-				x.Data["err"] = err
+				x.Put("started", true)
+				x.Put("addr", addr)
+				x.Put("err", err)
 			}()
-			x.Data["dt"] = x.Now() - t0
-			x.Data["killsAtReturn"] = r.killCount()
-			x.Data["tmpdir"] = r.tmpDir
+			x.Put("dt", x.Now()-t0)
+			x.Put("killsAtReturn", r.killCount())
+			x.Put("tmpdir", r.tmpDir)
 			// C01: a rejected line stays rejected: asking the same client again must not
 			// turn the failure into a started client
 			if e, _ := x.Data["err"].(error); e != nil && x.Data["panic"] == nil {
 				func() {
 					defer func() {
 						if rec := recover(); rec != nil {
-							x.Data["panic"] = fmt.Sprint(rec)
+							x.Put("panic", fmt.Sprint(rec))
 						}
 					}()
 					a2, e2 := cl.Start()
-					x.Data["again"] = fmt.Sprintf("Start: addr-nil=%v err-nil=%v; Protocol()=%q; ReattachConfig()-nil=%v", a2 == nil || isNilAddr(a2), e2 == nil, cl.Protocol(), cl.ReattachConfig() == nil)
+					x.Put("again", fmt.Sprintf("Start: addr-nil=%v err-nil=%v; Protocol()=%q; ReattachConfig()-nil=%v", a2 == nil || isNilAddr(a2), e2 == nil, cl.Protocol(), cl.ReattachConfig() == nil))
 				}()
 			}
 			// C05: a later Kill returns promptly and removes the socket dir
@@ -360,13 +360,13 @@ func init() {
 			func() {
 				defer func() {
 					if rec := recover(); rec != nil {
-						x.Data["killpanic"] = fmt.Sprint(rec)
+						x.Put("killpanic", fmt.Sprint(rec))
 					}
 				}()
 				cl.Kill()
 			}()
-			x.Data["killdt"] = x.Now() - t1
-			x.Data["killed"] = true
+			x.Put("killdt", x.Now()-t1)
+			x.Put("killed", true)
 		},
 		Check: func(x *vs.Exec, p explore.Params) {
 			c := cfgs[atoi(p["cfg"])]
@@ -375,7 +375,7 @@ func init() {
 			r := x.Data["runner"].(*scriptRunner)
 			x.OnCleanup(r.exit)
 			ok, why := refAccept(c, l)
-			x.Data["nontrivial"] = l.key() != lineSpec{"1", "1", "tcp", "127.0.0.1:1234", "netrpc", "\x00", "\x00", "LF"}.key()
+			x.Put("nontrivial", l.key() != lineSpec{"1", "1", "tcp", "127.0.0.1:1234", "netrpc", "\x00", "\x00", "LF"}.key())
 			if pv, bad := x.Data["panic"]; bad {
 				x.Fail("PANIC", "Start panicked: %v [%s]", pv, desc)
 				return
